@@ -55,6 +55,7 @@ type Path struct {
 	instrs    int
 	dumps     []string
 	callDepth int
+	decided   map[int]bool // condition term id -> outcome already fixed on this path
 }
 
 type Witness struct {
@@ -104,6 +105,7 @@ type Engine struct {
 	wgHook       FuncV
 	watched      map[*Loc]bool
 	watchHits    int
+	sleepBudget  int
 	replaced     map[string]FuncV
 	inReplaced   map[string]bool
 }
@@ -185,6 +187,21 @@ func (e *Engine) decide(c *Term, kind string) bool {
 	if c.IsConst() {
 		return c.bval
 	}
+	p := e.path
+	if v, ok := p.decided[c.id]; ok {
+		return v
+	}
+	if c.op == "not" {
+		if v, ok := p.decided[c.args[0].id]; ok {
+			return !v
+		}
+	}
+	r := e.decide1(c, kind)
+	p.decided[c.id] = r
+	return r
+}
+
+func (e *Engine) decide1(c *Term, kind string) bool {
 	p := e.path
 	if len(p.log) < len(p.prefix) {
 		d := p.prefix[len(p.log)]
@@ -445,6 +462,7 @@ func (e *Engine) resetPathState() {
 	e.wgHook = FuncV{}
 	e.watched = nil
 	e.watchHits = 0
+	e.sleepBudget = -1
 	e.replaced = map[string]FuncV{}
 	e.inReplaced = map[string]bool{}
 }
@@ -452,7 +470,7 @@ func (e *Engine) resetPathState() {
 func (e *Engine) runPath(fn *ssa.Function, prefix []Decision, wit *Witness) (status, detail string) {
 	e.resetPathState()
 	e.path = &Path{prefix: prefix, nondetN: map[string]int{}, reached: map[string]bool{},
-		loopCount: map[*ssa.If]int{}, witness: wit, ticksLeft: -1}
+		loopCount: map[*ssa.If]int{}, witness: wit, ticksLeft: 4, decided: map[int]bool{}}
 	defer func() {
 		if r := recover(); r != nil {
 			if pe, ok := r.(pathEnd); ok {
